@@ -198,6 +198,10 @@ pub fn run_case(fam: &Family, tier: Tier, choices: Choices, trace: bool) -> Case
     if violation.is_none() && !report.panics.is_empty() {
         violation = Some(Violation { class: fam.panic_class.to_string(), detail: report.panics.join(" | ") });
     }
+    if violation.is_none() && fam.external_clock && !report.hook_panics.is_empty() {
+        // tokio catches panics of spawned tasks; the panic hook journal sees them all
+        violation = Some(Violation { class: fam.panic_class.to_string(), detail: format!("(caught by the runtime) {}", report.hook_panics.join(" | ")) });
+    }
     match &report.outcome {
         Outcome::Completed => {}
         Outcome::Deadlock(who) => {
